@@ -359,6 +359,9 @@ def _run_history(hist, limit0):
             _, e, q = op
             exp = m.expect(e, q, None, w.docs)
             obs = observe(lambda: w.env(e).compile(Q[q]))
+            if obs[0] == "ok" and len(obs) < 3:
+                # compile() returned something that is not a compiled query (None, ...)
+                return (i, op, exp, ("returned", "not a compiled query"))
             if obs[0] == "ok":
                 w.handles.append(obs[2])
                 m.handles.append((e, q))
